@@ -84,6 +84,11 @@ def handle : Handler := fun op args =>
       fun calls =>
         -- outcome only: the process stops at the first call with an unknown method name
         if (runSeq idealI idealMC calls).all (fun r => match r with | .ok _ => true | .error _ => false) then "ok" else "err"
+  | "c13.neg" => withArgs (do let d ← pNat; let nm ← tok; let _ ← pInt; let _ ← pMany tok (6 * d); pure (d, nm)) args
+      fun (d, nm) =>
+        if d = 2 then (match integrate2D idealI idealMC nm 0 (fun _ _ => 1) 0 1 0 1 with | .ok _ => "ok" | .error _ => "err")
+        else if d = 3 then (match integrate3D idealI idealMC nm 0 (fun _ _ _ => 1) 0 1 0 1 0 1 with | .ok _ => "ok" | .error _ => "err")
+        else "bad-args"
   | "c13.default1" => some "ok"
   | "c13.sphdefault" => some "ok"
   | "c13.findeps" => withArgs (do let a ← pRat; let b ← pRat; let pr ← pRat; let c ← pRats; pure (a, b, pr, c)) args
